@@ -687,7 +687,10 @@ ZDICT_optimizeTrainFromBuffer_fastCover(
       }
     }
     /* Initialization */
-    COVER_best_init(&best);
+    if (COVER_best_init(&best)) {
+      POOL_free(pool);
+      return ERROR(memory_allocation);
+    }
     memset(&coverParams, 0 , sizeof(coverParams));
     FASTCOVER_convertToCoverParams(*parameters, &coverParams);
     accelParams = FASTCOVER_defaultAccelParameters[accel];
